@@ -158,6 +158,15 @@ class Interp:
         if k == "tstruct":
             enum, variant = (p["segs"][-2], p["segs"][-1]) if len(p["segs"]) >= 2 else (None, p["segs"][-1])
             enum = {"Exp": "Expression", "Ope": "Operator"}.get(enum, enum)
+            if len(p["segs"]) == 1 and variant in self.f.structs and variant not in self.f.enums:
+                # `Permission(bits)`: a tuple struct, its fields are positions of the value itself
+                for i, e in enumerate(p["elems"]):
+                    if isinstance(val, dict) and val.get("v") == "struct" and str(i) in val["fields"]:
+                        fv = val["fields"][str(i)]
+                    else:
+                        fv = H("proj", "%s.%d" % ((val.get("src") if isinstance(val, dict) else None) or "?", i), of=val if isinstance(val, dict) else None, field=str(i), ty=self._field_ty(val, str(i)) if isinstance(val, dict) else None)
+                    self.bind_pattern(e, fv, st)
+                return
             for i, e in enumerate(p["elems"]):
                 if val.get("v") == "some" and variant == "Some":
                     self.bind_pattern(e, val["x"], st)
@@ -273,11 +282,40 @@ class Interp:
                     return self.ev(it["e"], st)
             return [(st, H("name", n))]
         full = "::".join(segs)
+        fl = self.flag_const(segs)
+        if fl is not None:
+            return [(st, fl)]
         # Type::method as a function value (Size::byte_size)
         key = "%s::%s" % (segs[-2], segs[-1])
         if key in self.f.fns:
             return [(st, {"v": "fn", "key": key})]
         return [(st, H("path", full))]
+
+    def flag_const(self, segs):
+        """`Mode::S_IRWXU` / `SFlag::S_IFMT`: a constant of one of the crate's bitflags types, with its value"""
+        if len(segs) < 2:
+            return None
+        if not hasattr(self, "_flagtys"):
+            self._flagtys = {}
+            consts = {}
+            for k_, it in self.f.consts.items():
+                if ".values" in k_ or "::values::" in k_:
+                    v_ = rx.int_const(it["e"])
+                    if v_ is not None:
+                        consts[k_.split("::")[-1]] = v_
+            for it in self.f.macro_items:
+                if it.get("name") != "bitflags":
+                    continue
+                raw = re.sub(r'#\[doc="(?:[^"\\]|\\.)*"\]', "", it.get("raw", ""))
+                m_ = re.search(r"pub struct (\w+):\w+\{(.*)\}\s*$", raw)
+                if m_:
+                    names = [re.sub(r"\s*as\s*\w+$", "", x.strip()) for x in m_.group(2).split(";") if x.strip()]
+                    self._flagtys[m_.group(1)] = {n_: consts.get(n_) for n_ in names}
+        ty, name = segs[-2], segs[-1]
+        tab = self._flagtys.get(ty)
+        if tab is not None and tab.get(name) is not None:
+            return {"v": "flags", "ty": ty, "bits": tab[name], "src": "%s::%s" % (ty, name)}
+        return None
 
     def ev_ref(self, e, st):
         if e.get("mut"):
@@ -348,6 +386,9 @@ class Interp:
                 elif a.get("v") == "int" and b.get("v") == "int" and e["op"] in ("+", "-", "*"):
                     n = {"+": a["n"] + b["n"], "-": a["n"] - b["n"], "*": a["n"] * b["n"]}[e["op"]]
                     out.append((s2, {"v": "int", "n": n, "src": src(e)}))
+                elif a.get("v") == "flags" and b.get("v") == "flags" and a["ty"] == b["ty"] and e["op"] in ("|", "&", "^", "-"):
+                    n = {"|": a["bits"] | b["bits"], "&": a["bits"] & b["bits"], "^": a["bits"] ^ b["bits"], "-": a["bits"] & ~b["bits"]}[e["op"]]
+                    out.append((s2, {"v": "flags", "ty": a["ty"], "bits": n, "src": src(e)}))
                 elif e["op"] in ("|", "||") and a.get("kind") == "contains_any" and b.get("kind") == "contains_any" and canon(a["recv"]) == canon(b["recv"]):
                     # s.contains(x) | s.contains(y)  ≡  s.contains([x, y])
                     out.append((s2, H("contains_any", src(e), recv=a["recv"], chars="".join(sorted(set(a["chars"]) | set(b["chars"]))))))
@@ -427,6 +468,14 @@ class Interp:
                 out.append((s1, v))
         return out
 
+    def ev_continue(self, e, st):
+        st.ret = {"v": "loopctl", "kind": "continue"}
+        return [(st, {"v": "never"})]
+
+    def ev_break(self, e, st):
+        st.ret = {"v": "loopctl", "kind": "break"}
+        return [(st, {"v": "never"})]
+
     def ev_return(self, e, st):
         out = []
         for s1, v in self.ev(e["e"], st) if e["e"] is not None else [(st, {"v": "unit"})]:
@@ -434,7 +483,7 @@ class Interp:
             out.append((s1, {"v": "never"}))
         return out
 
-    def ev_if(self, e, st):
+    def ev_if(self, e, st, keep_bindings=False):
         cond = e["cond"]
         out = []
         if cond["k"] == "letexpr":
@@ -571,6 +620,38 @@ class Interp:
                         a.conds = a.conds + ((canon(gv[0][1]) if len(gv) == 1 else src(arm["guard"]), True),)
                     out += self.ev(arm["body"], a)
                 continue
+            def _slice_pat(pt):
+                while pt["k"] in ("ref", "typed"):
+                    pt = pt["pat"]
+                return pt if pt["k"] == "slice" else None
+
+            if isinstance(sv, dict) and sv.get("v") in ("mapped", "hole", "self") and any(_slice_pat(a_["pat"]) is not None for a_ in e["arms"]) and all(_slice_pat(a_["pat"]) is not None or rx.is_catchall(a_["pat"]) for a_ in e["arms"]):
+                lenv = H("len", src(e["scrut"]), of=sv)
+                okay = True
+                arms_out = []
+                for arm in e["arms"]:
+                    sp = _slice_pat(arm["pat"])
+                    a = s1.fork()
+                    if sp is None:
+                        a.conds = a.conds + ((canon(lenv), ("_",)),)
+                        self.bind_pattern(arm["pat"], sv, a)
+                    else:
+                        if any(x["k"] == "rest" or (x["k"] == "ident" and x.get("sub") and x["sub"]["k"] == "rest") for x in sp["elems"]):
+                            okay = False
+                            break
+                        n_ = len(sp["elems"])
+                        a.conds = a.conds + ((canon(lenv), (repr(n_),)),)
+                        for i_, pe_ in enumerate(sp["elems"]):
+                            which = "first" if i_ == 0 else ("last" if i_ == n_ - 1 else "nth%d" % i_)
+                            self.bind_pattern(pe_, H("elem-of-mapped", src(e["scrut"]), mapped=sv, which=which), a)
+                    if arm["guard"] is not None:
+                        okay = False
+                        break
+                    arms_out.append((arm, a))
+                if okay:
+                    for arm, a in arms_out:
+                        out += self.ev(arm["body"], a)
+                    continue
             if isinstance(sv, dict) and sv.get("v") in ("some", "none"):
                 taken = False
                 for arm in e["arms"]:
@@ -705,6 +786,8 @@ class Interp:
                         nxt.append((s2, acc + [("h", H("debug", src(ex), of=v, spec=spec))]))
                     elif is_str(v) and not spec:
                         nxt.append((s2, acc + v["parts"]))
+                    elif isinstance(v, dict) and v.get("v") == "int" and not spec:
+                        nxt.append((s2, acc + [C(str(v["n"]))]))
                     else:
                         vv = dict(v) if isinstance(v, dict) else H("opaque", str(v))
                         vv["spec"] = spec
@@ -746,9 +829,17 @@ class Interp:
                         if s2.ret is not None:
                             nxt.append(s2)
                             continue
+                        if getattr(s2, "_broke", False):
+                            nxt.append(s2)
+                            continue
                         a = s2.fork()
                         self.bind_pattern(e["pat"], item, a)
                         for s3, _ in self.ev(e["body"], a):
+                            if isinstance(s3.ret, dict) and s3.ret.get("v") == "loopctl":
+                                kind = s3.ret["kind"]
+                                s3.ret = None
+                                if kind == "break":
+                                    s3.unknown.append("break inside an unrolled loop")
                             nxt.append(s3)
                     states = nxt
                 out += [(s2, {"v": "unit"}) for s2 in states]
@@ -778,6 +869,10 @@ class Interp:
         problems = []
         err_paths = []
         for s2, _ in results:
+            if isinstance(s2.ret, dict) and s2.ret.get("v") == "loopctl":
+                if s2.ret["kind"] == "break":
+                    problems.append("break inside the loop")
+                s2.ret = None
             if s2.ret is not None:
                 if isinstance(s2.ret, dict) and s2.ret.get("v") == "err":
                     err_paths.append((s2.conds, s2.ret))
@@ -1039,6 +1134,30 @@ class Interp:
         if isinstance(rv, dict) and rv.get("v") == "fieldref":
             rv = self._field_value(rv["field"], st)
         k = rv.get("v") if isinstance(rv, dict) else None
+        if k == "flags":
+            if m == "bits" and not argv:
+                return [(st, {"v": "int", "n": rv["bits"], "src": src(e)})]
+            if m in ("union", "intersection", "difference", "symmetric_difference") and len(argv) == 1 and argv[0].get("v") == "flags":
+                o = argv[0]["bits"]
+                n = {"union": rv["bits"] | o, "intersection": rv["bits"] & o, "difference": rv["bits"] & ~o, "symmetric_difference": rv["bits"] ^ o}[m]
+                return [(st, dict(rv, bits=n, src=src(e)))]
+        if m == "contains" and len(argv) == 1 and k in ("hole",) and argv[0].get("v") in ("closure", "fn"):
+            # a character predicate: the finite set it accepts, whatever its spelling (closure, named function, matches!)
+            try:
+                from . import peg as _peg
+
+                bld = getattr(self, "_pegb", None) or _peg.Builder(self.f)
+                self._pegb = bld
+                fn0 = st.env.get("__fn")
+                env_ = {"__module": fn0.module if fn0 is not None else (), "__tsubst": {}}
+                node = argv[0]["node"] if argv[0]["v"] == "closure" else {"k": "path", "segs": argv[0]["key"].split("::")[-1:], "gen": [None], "l": 0}
+                if argv[0]["v"] == "fn":
+                    env_["__module"] = self.f.fns[argv[0]["key"]].module
+                pr = bld.pred(node, env_)
+                if pr is not None and pr[0] == "cs" and pr[1][0] == "in":
+                    return [(st, H("contains_any", src(e), recv=rv, chars="".join(sorted(pr[1][1]))))]
+            except Exception:
+                pass
         if m == "contains" and len(argv) == 1 and k in ("hole",):
             a0 = argv[0]
             chars = None
@@ -1376,6 +1495,13 @@ class Interp:
 
     def exec_stmt(self, s_, st, last=False):
         k = s_["k"]
+        if k == "let" and s_.get("else") is not None and s_["init"] is not None:
+            # let PAT = INIT else { diverge };   ≡   if let PAT = INIT { bind } else { diverge }
+            out = []
+            as_if = {"k": "if", "l": s_.get("l"), "cond": {"k": "letexpr", "l": s_.get("l"), "pat": s_["pat"], "e": s_["init"]}, "then": {"k": "block", "l": s_.get("l"), "stmts": []}, "else": s_["else"]}
+            for s1, v in self.ev_if(as_if, st, keep_bindings=True):
+                out.append((s1, {"v": "unit"}))
+            return out
         if k == "let":
             out = []
             for s1, v in self.ev(s_["init"], st) if s_["init"] is not None else [(st, {"v": "unit"})]:
@@ -1718,6 +1844,8 @@ def canon(h):
         return "%s{%s}" % (h["name"], ",".join("%s:%s" % (k, canon(x)) for k, x in sorted(h["fields"].items())))
     if v == "self":
         return "self"
+    if v == "flags":
+        return "%s(%s)" % (h["ty"], oct(h["bits"]))
     if v == "mapped":
         return "map(%s)" % canon(h.get("of"))
     if v == "list":
